@@ -302,7 +302,7 @@ WALLET_KINDS = [('hd_master', 'segwit'), ('hd_acct_priv', None), ('single_wif', 
                 ('hd_generated', None), ('single_hdkey', None), ('ms_acctpriv_pub', None), ('ms_single_keys', 'legacy'), ('hd_other_depth', None),
                 ('hd_passphrase', None), ('hd_purpose', None)]
 MAY_REFUSE = ('hd_other_depth',)         # creation routes the library may legitimately refuse
-W_FILLERS = ['get_key', 'new_key', 'new_account', 'key_lookup', 'mainkey_key', 'wif_priv', 'as_dict_priv', 'keys_priv', 'send', 'send', 'reopen']
+W_FILLERS = ['get_key', 'new_key', 'new_account', 'key_lookup', 'mainkey_key', 'wif_priv', 'as_dict_priv', 'keys_priv', 'send', 'reopen']
 W_VIEWS = ['repr', 'as_dict', 'info', 'wif_pub', 'public_master', 'keys_as_dict', 'wk_repr', 'wk_as_dict', 'wk_public',
            'tx_views', 'tx_save', 'addresses']
 W_WATCH_BATTERY = ['as_dict_priv', 'wif_priv', 'keys_priv', 'public_master', 'wk_repr', 'mainkey_key', 'as_dict', 'send', 'tx_save']
@@ -651,8 +651,10 @@ def wallet_history(job):
 
 
 def gen_wallet_history(rng, n):
-    """A seeded prefix of n calls (fillers and views), then every public view once in seeded order, then watch-only
-    wallets built from every public export, then the calls of the battery on the watch-only wallet."""
+    """A seeded prefix of n calls (fillers and views); then every public view once in seeded order on the wallet as the
+    history left it (earlier calls - also earlier views - may have changed cached objects); then every public view
+    again, each on a freshly opened handle; then watch-only wallets built from every public export of a fresh handle,
+    and the calls of the watch battery on the watch-only wallet."""
     hist = ['get_key']
     has_tx = False
     for i in range(1, n):
@@ -667,7 +669,11 @@ def gen_wallet_history(rng, n):
     if not has_tx:
         battery.insert(rng.randrange(0, 4), 'send')
     hist += battery
-    hist += ['to_watch_only']
+    fresh = [c for c in W_VIEWS if c not in ('tx_views', 'tx_save')]        # (the transaction object belongs to the old handle)
+    rng.shuffle(fresh)
+    for c in fresh:
+        hist += ['reopen', c]
+    hist += ['reopen', 'to_watch_only']
     tail = list(W_WATCH_BATTERY)
     rng.shuffle(tail)
     tail.remove('tx_save')
